@@ -214,9 +214,9 @@ Definition monitor_during2 (cfg : config) (np : nat) (pre : list (op * obs)) (ev
       end
   end.
 
-Definition conform_case (l : list Z) : list Z := conform_case_seq l.
+Definition conform_case_k2 (l : list Z) : list Z := conform_case_seq l.
 
-Definition monitor_case (l : list Z) : list Z :=
+Definition monitor_case_k2 (l : list Z) : list Z :=
   match l with
   | 2 :: _ =>
       match decode_during l with
